@@ -193,6 +193,21 @@ fn gen(_prop: &str, tier: &str, seed: u64) -> Vec<String> {
             }
         }
     }
+    // solid entries that hold no inner entry (an empty stream: the IV and, with CBC, one padding block are all the data
+    // there is), built and streamed, stored and compressed, under every cipher and mode (seeded C14-4)
+    for kind in ["solid_builder", "solid_archive"] {
+        for comp in [0u8, 2] {
+            for (enc, mode) in [(0u8, 0u8), (1, 0), (1, 1), (2, 0), (2, 1)] {
+                let cfg = Cfg { comp, enc, mode, kdf: Kdf::Pbkdf2(Some(1)) };
+                let files: Vec<(String, Vec<u8>)> = Vec::new();
+                let bytes = write_with(kind, &cfg, "pw", &files, None).expect("library writer");
+                let label = format!("lib:{}:empty:c{}e{}m{}", kind, comp, enc, mode);
+                out.push(format!("wf\t{}\t{}\t{}", label, hex(&bytes), expect_text(&files)));
+                out.push(format!("strict\t{}", hex(&bytes)));
+                out.push(format!("agree\t{}", hex(&bytes)));
+            }
+        }
+    }
     // the sample pool of the archive area (dirs, links, rich metadata, foreign layout)
     for (l, b) in arch::sample_archives() {
         out.push(format!("wf\t{}:{}\t{}\t", if l == "foreign" { "foreign" } else { "sample" }, l, hex(&b)));
